@@ -254,9 +254,14 @@ def run_value_pairs(rng, n, res: CaseResult, witness=False):
                 pairs.append(({'class': OS, 'kwargs': {'a': f1, 'limit': f2}}, {'class': OS, 'kwargs': {'a': f2, 'limit': f1}}, 'obj'))
                 pairs.append(({'class': O, 'kwargs': {'a': x, 'b': 3}}, {'class': O, 'kwargs': {'a': x, 'b': '3'}}, 'obj'))     # (b=3 is the default, left out of the text)
                 pairs.append(({'class': O, 'kwargs': {'a': [{'class': O, 'kwargs': {'a': 1}}]}}, {'class': O, 'kwargs': {'a': [{'class': O, 'kwargs': {'a': 1, 'b': '3'}}]}}, 'obj'))
-                res.count('object_value_pairs', 15)
+                # sibling classes that inherit their constructor from a common base, built with equal arguments
+                A_, M_ = 'tc_verif.lab.runtime.LabOpAdd', 'tc_verif.lab.runtime.LabOpMul'
+                amt = rng.choice([3, 'x', [1, 2]])
+                pairs.append(({'class': A_, 'kwargs': {'amount': amt}}, {'class': M_, 'kwargs': {'amount': amt}}, 'obj'))
+                pairs.append(([{'class': A_, 'kwargs': {'amount': amt, 'unit': 'm'}}], [{'class': M_, 'kwargs': {'amount': amt, 'unit': 'm'}}], 'obj'))
+                res.count('object_value_pairs', 17)
                 res.count('falsy_object_argument_pairs', 3)
-        for a, b, mode in pairs[:n + 20]:
+        for a, b, mode in pairs[:n + 24]:
             if mode == 'dflt':
                 try:
                     k1, k2 = key_with_default(a[0], a[1], tmp), key_with_default(b[0], b[1], tmp)
@@ -530,9 +535,42 @@ def run_rewire_case(rng, res: CaseResult):
     res.nt(jhash([spec['files'], ra, rb]))
 
 
+def run_env_case(rng, res: CaseResult):
+    """one configuration computed by two processes whose environments differ (HOME, current directory): they use one storage location, so what the
+    task RECEIVES must be the same in both (otherwise two different computations share a location)"""
+    pkg = 'labe_' + ''.join(rng.choice('abcdefgh') for _ in range(8))
+    pval = rng.choice(['~/store/x', '~', 'rel/dir', '~user/x', './x', '../up'])
+    t = {'cls': 'Reader', 'data_kind': 'json_dict', 'params': [{'name': 'src', 'dtype': 'Path', 'access': rng.choice(['args', None])}, {'name': 'mode', 'default': 'r'}], 'inputs': []}
+    spec = {'pkg': pkg, 'modules': [{'name': 'm', 'package': None, 'tasks': [t]}],
+            'files': {'cfg/c.json': {'parts': {'': {'tasks': [f'{pkg}.m.*'], 'values': {'src': pval}, 'uses': []}}}},
+            'context_files': {}, 'fnames': ['cfg/c.json'], 'free_ns_words': ['n'], 'placeholders': None}
+    root = {'file': 'cfg/c.json'}
+    seen = []
+    with Lab(spec) as lab:
+        for i, env in enumerate(({'HOME': str(lab.root / 'home_alice')}, {'HOME': str(lab.root / 'home_bob')})):
+            (lab.root / f'home_{"alice" if i == 0 else "bob"}').mkdir(exist_ok=True)
+            r = lab.run([{'op': 'build', 'chain': 'c', 'root': root}, {'op': 'value', 'chain': 'c', 'task': 'reader'}, {'op': 'snapshot', 'chain': 'c'}],
+                        data_dir=lab.root / f'data{i}', env_extra=env)
+            if session_problem(r) or not all(o['ok'] for o in r['steps']):
+                res.inconclusive.append(session_problem(r) or f'environment case failed: {[o.get("msg") for o in r["steps"] if not o["ok"]][:1]}')
+                return
+            run = next(x for x in r['steps'][1]['runs'] if x['phase'] == 'start')
+            seen.append((r['steps'][2]['snapshot']['tasks']['reader'].get('real_rel_path'), run['received'], env))
+    res.count('environment_pairs_checked')
+    (l1, rec1, e1), (l2, rec2, e2) = seen
+    if l1 == l2 and rec1 != rec2:
+        res.violate(f'the task of one configuration (src={pval!r}) receives {rec1} in a process with {e1} and {rec2} in a process with {e2}, '
+                    f'but both use the storage location {l1}: two different computations share a location', witness={'spec': spec, 'envs': [e1, e2]},
+                    facts={'tag': 'environment_dependent_value'})
+
+
 def run_case(case) -> CaseResult:
     res = CaseResult()
     rng = random.Random(case['seed'])
+    if case['kind'] == 'env':
+        for _ in range(case['n']):
+            run_env_case(rng, res)
+        return res
     if case['kind'] == 'values':
         run_value_pairs(rng, case['n'], res, witness=case.get('witness', False))
     elif case['kind'] == 'graph':
@@ -563,3 +601,5 @@ def cases(tier, seed):
             yield {'kind': 'rewire', 'n': 3, 'seed': rng.randrange(1 << 30)}
         if i % 4 == 1 and i < ng:
             yield {'kind': 'same_dir', 'n': 3, 'seed': rng.randrange(1 << 30)}
+        if i % 25 == 3 and i < ng:
+            yield {'kind': 'env', 'n': 2, 'seed': rng.randrange(1 << 30)}
